@@ -1,6 +1,6 @@
 ------------------------------ MODULE PackedGen ------------------------------
 (* Every pair of packed encodings of at most MaxSpans spans over a word of N units (spans may leave holes, touch, *)
-(* nest, straddle), with distinct variables: one CASE line each, replayed on the real `merge` (harness           *)
+(* nest, straddle), with distinct variables or with one span shared by both: one CASE line each, replayed on the real `merge` (harness           *)
 (* `packed-replay`, one unit = 32 bits) and judged by PackedTrace.tla.                                           *)
 EXTENDS Integers, Sequences, FiniteSets, TLC, Json
 
@@ -17,6 +17,8 @@ VARIABLE done
 Init == done = FALSE
 Next == /\ ~done /\ done' = TRUE
         /\ \A A \in Shapes : \A B \in Shapes :
-              PrintT(<<"CASE", ToJson([a |-> AsSeq(A), b |-> AsSeq(B)])>>)
+              /\ PrintT(<<"CASE", ToJson([a |-> AsSeq(A), b |-> AsSeq(B), share |-> << >>])>>)
+              \* the same value in the same place of both encodings: one span of each is the very same variable
+              /\ \A c \in A \cap B : PrintT(<<"CASE", ToJson([a |-> AsSeq(A), b |-> AsSeq(B), share |-> c])>>)
 Spec == Init /\ [][Next]_done
 ==============================================================================
